@@ -120,6 +120,10 @@ impl Entry for SEntry {
 #[derive(Clone, Default)]
 struct RecFormat {
     log: Arc<Mutex<Vec<(u64, f32)>>>,
+    /// fault: every k-th emitted entry fails to be written (I/O error); 0 = never
+    fail_every: Arc<AtomicU64>,
+    calls: Arc<AtomicU64>,
+    failed: Arc<AtomicU64>,
 }
 impl Format for RecFormat {
     fn format(&mut self, _e: &impl Entry, _o: &mut impl io::Write) -> Result<(), IoStreamError> {
@@ -132,6 +136,13 @@ impl SampledFormat for RecFormat {
         let mut seen = crate::common::Seen::default();
         e.write(&mut seen);
         self.log.lock().unwrap().push((seen.id.unwrap_or(0), rate));
+        let k = self.fail_every.load(Ordering::SeqCst);
+        let n = self.calls.fetch_add(1, Ordering::SeqCst);
+        if k > 0 && n % k != 0 {
+            // (with k = 2 every other entry fails, with k = 50 all but one in fifty)
+            self.failed.fetch_add(1, Ordering::SeqCst);
+            return Err(IoStreamError::Io(io::Error::new(io::ErrorKind::BrokenPipe, "harness: the output is down")));
+        }
         Ok(())
     }
 }
@@ -431,6 +442,9 @@ fn congress_main(plan: &Value, out: Arc<Mutex<(Vec<String>, Option<Violation>, B
     let rng = ScriptRng::new(); // word 0 => draw 0.0 => every entry is emitted, its rate observed
     let rng_word = rng.word.clone();
     let rec = RecFormat::default();
+    rec.fail_every.store(ju(plan, "fail_every", 0), Ordering::SeqCst);
+    // entries offered to the sampler since its last roll-over, counted here (whatever became of them downstream)
+    let mut offered: u32 = 0;
     let mut c = CongressSampleBuilder::default()
         .interval(Duration::from_nanos(interval_ns))
         .target_entries_per_interval(target.max(1))
@@ -463,15 +477,32 @@ fn congress_main(plan: &Value, out: Arc<Mutex<(Vec<String>, Option<Violation>, B
                 detsim::advance_clock(ju(step, "per_entry_ns", 0));
                 let before_total = c.__verif_groups().1;
                 let t_before = detsim::clock_ns();
+                let failed_before = rec.failed.load(Ordering::SeqCst);
                 let res = c.format(&SEntry { id, group: g.clone() }, &mut io::sink());
                 let t_after = detsim::clock_ns();
-                if res.is_err() {
-                    out.lock().unwrap().1 = Some(Violation::new("sampler_error", "CongressSample::format returned an error"));
+                let write_failed = rec.failed.load(Ordering::SeqCst) > failed_before;
+                if res.is_err() != write_failed {
+                    out.lock().unwrap().1 = Some(Violation::new("sampler_error", format!("CongressSample::format returned {:?} although the inner format {}", res.map_err(|e| e.to_string()), if write_failed { "failed" } else { "succeeded" })));
                     break 'outer;
                 }
+                if write_failed {
+                    *probes.entry("emitted_entry_failed_to_write".into()).or_insert(0) += 1;
+                }
                 let (groups, running) = c.__verif_groups();
-                // did the interval roll over inside this call? (running total restarted)
-                let rolled = running <= before_total;
+                // did the interval roll over inside this call? (running total restarted; an entry whose write failed
+                // was seen all the same: it counts, so after it the total is above what it was unless it restarted)
+                // (a failed write right after a roll-over that saw one entry leaves 1 -> 1 either way: taken as a roll-over,
+                // which only makes the checks more lenient)
+                let rolled = if write_failed { running < before_total || (running == 1 && before_total == 1) } else { running <= before_total };
+                // what an interval "saw" is what was offered to the sampler, whatever became of it downstream
+                if before_total != offered {
+                    out.lock().unwrap().1 = Some(Violation::new(
+                        "interval_volume_miscounted",
+                        format!("{offered} entries were offered to the sampler since its last roll-over, it counts {before_total} (the rates of the next interval are decided from that number)"),
+                    ));
+                    break 'outer;
+                }
+                offered = if rolled { 1 } else { offered + 1 };
                 if !rolled && before_total >= 1 && t_before > last_rollover_after.saturating_add(interval_ns) {
                     out.lock().unwrap().1 = Some(Violation::new(
                         "interval_never_ends",
@@ -652,7 +683,11 @@ impl Scenario for Congress {
         }
         let sched = json!({"seed": rng.next_u64() >> 1, "strategy": {"kind":"random","p":0.1}, "now_cost_ns": *rng.pick(&[0u64, 100, 10_000]), "max_steps": 400_000,
                            "jump_prob": if rng.chance(0.3) { 0.0005 } else { 0.0 }, "jump_max_ns": interval * 40});
-        json!({"sched": sched, "target": target, "interval_ns": interval, "intervals": intervals})
+        // a fifth of the runs: the output behind the sampler is flaky or down (every 2nd / 3rd / all but one in 50
+        // of the emitted entries fail to be written); decided from the schedule seed
+        let hf = mix(ju(&sched, "seed", 0), 0xf1a);
+        let fail_every = if hf % 5 == 0 { [2u64, 3, 50][(hf / 5 % 3) as usize] } else { 0 };
+        json!({"sched": sched, "target": target, "interval_ns": interval, "intervals": intervals, "fail_every": fail_every})
     }
     fn run(&self, plan: &Value) -> Report {
         let sched = sched_from_plan(plan);
